@@ -129,17 +129,13 @@ fn walk(cert: &[u8], now: i64) -> Walk {
         };
     }
     let (outer, _end) = un!(der_read(cert, 0), "outer");
-    if outer.tag != 0x30 {
-        return Walk::Unparsed("outer tag".into());
-    }
     let parts = un!(der_children(outer.body), "certificate fields");
     if parts.len() != 3 {
         return Walk::Unparsed("certificate is not 3 fields".into());
     }
     let (tbs, sigalg, sigval) = (&parts[0], &parts[1], &parts[2]);
-    if tbs.tag != 0x30 || sigalg.tag != 0x30 {
-        return Walk::Unparsed("tbs/sigalg tag".into());
-    }
+    // tags of the constructed fields are not insisted on either: a reader that tolerates another tag byte
+    // still sees the same fields; the TBS tag is covered by the signature anyway
     let sig = un!(bit_string(sigval), "signature bit string");
     let alg = un!(der_children(sigalg.body), "sigalg");
     // OIDs are compared by content: a DER reader that tolerates another tag byte in front of the same
